@@ -1099,6 +1099,8 @@ func (c *Ctx) ruleChan(rule string) {
 					k := key(rule, c.M.Key(fn), "receive loop on "+chName+" left when "+desc)
 					if closedExit {
 						c.R.Ok(rule, k, c.M.InstrPos(b.Instrs[len(b.Instrs)-1]), "exit of the error-report loop", "taken only when the channel has been closed (no sender is left)")
+					} else if c.defersDrain(fn, ro) {
+						c.R.Ok(rule, k, c.M.InstrPos(b.Instrs[len(b.Instrs)-1]), "exit of the error-report loop", "the function defers the start of a goroutine that keeps receiving from the channel until it is closed: later reports find a receiver")
 					} else {
 						c.R.Bad(rule, k, c.M.InstrPos(b.Instrs[len(b.Instrs)-1]), "error-report loop can stop while senders are still running",
 							"after this exit nobody receives from "+chName+" (buffer 3); goroutines counted by the session WaitGroup that report an error later block in their send forever, and RunATPServer's final Wait never returns")
@@ -2352,4 +2354,45 @@ func (c *Ctx) ruleClientPanic(rule string) {
 		}
 	}
 	c.R.Note("%s: %d explicit panics reachable from the client's methods", rule, n)
+}
+
+// defersDrain: fn has a deferred closure that starts (go) a function receiving from the server's error channel in a loop.
+func (c *Ctx) defersDrain(fn *ssa.Function, ro *atpRoles) bool {
+	drains := func(f *ssa.Function) bool {
+		for _, b := range f.Blocks {
+			for _, in := range b.Instrs {
+				if u, ok := in.(*ssa.UnOp); ok && u.Op.String() == "<-" && blockInLoop(b) {
+					// the channel: the server's error channel (through the captured session)
+					if strings.HasSuffix(c.M.ValPath(u.X), "."+ro.errChan) || c.isFieldLoad(u.X, ro.serverT, ro.errChan) {
+						return true
+					}
+				}
+			}
+		}
+		return false
+	}
+	for _, b := range fn.Blocks {
+		for _, in := range b.Instrs {
+			d, ok := in.(*ssa.Defer)
+			if !ok {
+				continue
+			}
+			for _, df := range c.M.Callees(d.Common()) {
+				for _, db := range df.Blocks {
+					for _, din := range db.Instrs {
+						g, ok := din.(*ssa.Go)
+						if !ok {
+							continue
+						}
+						for _, gf := range c.M.Callees(g.Common()) {
+							if drains(gf) {
+								return true
+							}
+						}
+					}
+				}
+			}
+		}
+	}
+	return false
 }
